@@ -1,25 +1,32 @@
-"""correspondence stream `selfint` (C16, C12): the self-intersection test of TriangularMesh against Model/MeshIntersect.lean.
+"""correspondence stream `selfint` (C16, C12): the self-intersection test of TriangularMesh against Model/MeshIntersect.lean
+(the REPAIRED code: a zero signed volume fits both signs, segments that start or end in a corner of the facet are skipped,
+r_factor = 2.0, lengths in units of the mesh size before the float32 cast).
 
 Kind `segfacet`: `segments_intersect_facets(segments, facets, eps)` for ONE (segment, facet) pair, called on float64 arrays and on
 float32 arrays (the dtype `get_intersecting_triangles` hands it), against `Kern.segFacet` evaluated by the driver in IEEE double
 resp. in emulated float32 (every operation rounded).  Rows: *adversarial exact* ones on small dyadic coordinates (all products and
 sums exactly representable in float32, so nothing depends on rounding): segment piercing the interior, passing exactly through an
-edge, exactly through a vertex, lying in the facet's plane, parallel to it, ending exactly in the plane, ending at distance
-eps·(1 ± 2^-10) and exactly float32(eps) from the plane (axis-aligned facets: unit normal exact), starting in a corner of the facet
-(the situation of adjacent mesh faces), far away, zero-length segment, zero-area facet (NaN normal), `eps <= 0` (ValueError on
-both sides); and *random* rows (normal coordinates, sizes 1e-4 … 1e4, mixed hit / miss).  The verdict is compared exactly.  A
-disagreement on a random row is excluded (counted as `knife_edge_excluded`) iff one of the decisive quantities the model reports
-(g1, g2 against eps; the three signed volumes against 0) lies within the band 1e-5 (float32) / 1e-12 (float64) relative of its
-threshold; adversarial rows are never excluded.  The real function is also called once on each whole group of rows (same dtype
-and eps) and must agree with its one-row values (the model is a map over rows).
+edge, exactly through a vertex (both now reported), lying in the facet's plane, parallel to it, ending exactly in the plane, ending at
+distance eps·(1 ± 2^-10) and exactly float32(eps) from the plane (axis-aligned facets: unit normal exact), starting in a corner of the
+facet (the situation of adjacent mesh faces) — also on non-dyadic coordinates where the float32 plane distance of the shared corner
+is rounding noise above eps (`corner-noise`: needle facets; only the exact `touch` test keeps them from being reported) —, far away,
+zero-length segment, zero-area facet (NaN normal), `eps <= 0` (ValueError on both sides); and *random* rows (normal coordinates,
+sizes 1e-4 … 1e4, mixed hit / miss).  The verdict is compared exactly.  A disagreement on a random row is excluded (counted as
+`knife_edge_excluded`) iff one of the decisive quantities the model reports (g1, g2 against eps; the three signed volumes against 0)
+lies within the band 1e-5 (float32) / 1e-12 (float64) relative of its threshold; adversarial rows are never excluded.  The real
+function is also called once on each whole group of rows (same dtype and eps) and must agree with its one-row values (the model is a
+map over rows).
 
-Kind `selfint`: `get_intersecting_triangles(vertices, triangles, r, r_factor, eps)` on small meshes: boxes, tetrahedra, prisms,
-convex hulls; two disjoint copies; two interpenetrating translated copies (generic shift; the half-diagonal shift of a cube, where
-every edge meets the other cube's faces exactly on a face diagonal); a thin spike through a face interior; two needle triangles
-crossing near their tips (pair outside the default query radius); two generic crossing triangles; meshes scaled by 1e-7 … 1e4 and
-translated; faces shuffled; `r` None / given, `r_factor` 1 / 1.5 / 2 / 10, `eps` 1e-6 / 1e-3.  Compared exactly: the returned index
-set, and the query radius bit for bit when `r` is None (recomputed as the real code does).  Disagreements are excluded only when a
-float64 re-evaluation finds a centre distance within 1e-12 relative of r or a predicate quantity within 1e-5 of its threshold."""
+Kind `selfint`: `get_intersecting_triangles(vertices, triangles, r, r_factor, eps)` on small meshes: boxes, boxes with faces
+subdivided into 2×2 / 3×3 quads (many coplanar neighbours), tetrahedra, prisms, convex hulls, thin (needle-faced) boxes in general
+position; two disjoint copies; two interpenetrating translated copies (generic shift; the half-diagonal shift of a cube, where every
+edge meets the other cube's faces exactly on a face diagonal); the Stella octangula (edges crossing edges at their midpoints); a thin
+spike through a face interior; two needle triangles crossing near their tips (centroids 4/3 of their length apart: inside the query
+radius only with r_factor = 2); an octahedron whose equator lies in a box face (end points in the plane: still not reported); two
+generic crossing triangles; meshes scaled by 1e-9 … 1e9 and translated (up to 1e7 sizes); faces shuffled; `r` None / given,
+`r_factor` 1 / 1.5 / 2 / 10, `eps` 1e-6 / 1e-3.  Compared exactly: the returned index set, and the query radius (in units of the mesh
+size) bit for bit when `r` is None (recomputed as the real code does).  Disagreements are excluded only when a float64 re-evaluation
+finds a centre distance within 1e-12 relative of r or a predicate quantity within 1e-5 of its threshold."""
 import warnings
 
 import numpy as np
@@ -56,7 +63,7 @@ def _offplane_dir(rng, nrm):
 def gen_segfacet_adversarial(rng):
     """(category, eps, s0, s1, tri) on exactly representable coordinates"""
     cat = rng.choice(["interior", "edge", "vertex", "coplanar", "parallel", "end-in-plane", "at-eps", "corner-start", "far", "zero-segment",
-                      "zero-area", "bad-eps", "interior", "edge"])
+                      "zero-area", "bad-eps", "interior", "edge", "vertex", "corner-noise", "corner-noise"])
     eps = rng.choice([1e-6, 1e-6, 1e-6, 1e-3, 0.5])
     t, nrm = _dyadic_tri(rng, axis_aligned=cat == "at-eps")
     w = rng.choice([(0.25, 0.25, 0.5), (0.5, 0.25, 0.25), (0.125, 0.125, 0.75), (0.25, 0.5, 0.25)])
@@ -94,6 +101,21 @@ def gen_segfacet_adversarial(rng):
         s0, s1 = t[k], t[k] + d
         if rng.random() < 0.5:
             s0, s1 = s1, s0
+    elif cat == "corner-noise":
+        # a needle facet in general position (non-dyadic), the segment runs from one of its corners to a point on the other side of its
+        # plane as float32 sees it: in float32 the plane distance of the corner is rounding noise, often above eps
+        nps = np.random.default_rng(rng.randrange(2**31))
+        a = nps.normal(size=3)
+        a /= np.linalg.norm(a)
+        b = np.cross(a, nps.normal(size=3))
+        b /= np.linalg.norm(b)
+        org = nps.uniform(0, 1, 3)
+        w_ = 10.0 ** nps.uniform(-4, -1)
+        t = np.array([org, org + a, org + 0.5 * a + w_ * b])
+        nn = np.cross(a, b)
+        far_pt = org + nps.uniform(0.2, 0.8) * a + 0.3 * w_ * b + rng.choice([-1, 1]) * nps.uniform(0.05, 0.5) * nn
+        eps = 1e-6
+        s0, s1 = (t[k], far_pt) if rng.random() < 0.5 else (far_pt, t[k])
     elif cat == "far":
         s0, s1 = inner + 64 * d + np.array([100.0, 0, 0]), inner + 65 * d + np.array([100.0, 0, 0])
     elif cat == "zero-segment":
@@ -213,11 +235,69 @@ def spike_box(nps):
     return np.concatenate([v, spike]), np.concatenate([f, sf + 8])
 
 
+def gridbox(n, d):
+    """box whose faces are subdivided into n x n quads (two triangles each), shared vertices merged: coplanar neighbours"""
+    pts, V, F = {}, [], []
+
+    def vid(p):
+        key = tuple(np.round(p, 12))
+        if key not in pts:
+            pts[key] = len(V)
+            V.append(p)
+        return pts[key]
+    g = np.linspace(-0.5, 0.5, n + 1)
+    for ax in range(3):
+        for side in (-0.5, 0.5):
+            for i in range(n):
+                for j in range(n):
+                    q = []
+                    for (a, b) in ((g[i], g[j]), (g[i + 1], g[j]), (g[i + 1], g[j + 1]), (g[i], g[j + 1])):
+                        p = np.zeros(3)
+                        p[ax], p[(ax + 1) % 3], p[(ax + 2) % 3] = side, a, b
+                        q.append(vid(p * np.asarray(d, float)))
+                    F += [[q[0], q[1], q[2]], [q[0], q[2], q[3]]]
+    return np.array(V), np.array(F)
+
+
+def rotated(nps, v):
+    from scipy.spatial.transform import Rotation
+    return Rotation.random(random_state=int(nps.integers(2**31))).apply(v)
+
+
+STELLA = (np.array([(1, 1, 1), (1, -1, -1), (-1, 1, -1), (-1, -1, 1), (-1, -1, -1), (-1, 1, 1), (1, -1, 1), (1, 1, -1)], float),
+          np.array([[0, 1, 2], [0, 3, 1], [0, 2, 3], [1, 3, 2], [4, 5, 6], [4, 6, 7], [4, 7, 5], [5, 7, 6]]))
+OCTA = (np.array([(1, 0, 0), (0, 1, 0), (-1, 0, 0), (0, -1, 0), (0, 0, 1), (0, 0, -1)], float),
+        np.array([[0, 1, 4], [1, 2, 4], [2, 3, 4], [3, 0, 4], [1, 0, 5], [2, 1, 5], [3, 2, 5], [0, 3, 5]]))
+
+
+def octa_on_box(dz):
+    """a small octahedron whose equator lies in (dz = 0) / near the top face of a box, away from the face's diagonal"""
+    bv, bf = box((4.0, 4.0, 2.0), (0, 0, -1.0))
+    return np.concatenate([bv, OCTA[0] * 0.25 + (1.25, 0.0, dz)]), np.concatenate([bf, OCTA[1] + 8])
+
+
 def gen_selfint(rng, nps):
     kind = rng.choice(["box", "tetra", "prism", "hull", "disjoint", "interpenetrating", "interpenetrating", "half-diagonal", "spike", "needles",
-                       "two-triangles", "interpenetrating-tetra"])
+                       "two-triangles", "interpenetrating-tetra", "gridbox", "thin-box", "stella", "far-needles", "octa-on-box"])
     if kind == "box":
         v, f = box(nps.uniform(0.5, 2, 3))
+    elif kind == "gridbox":
+        v, f = gridbox(rng.choice([2, 2, 3]), nps.uniform(0.5, 2, 3))
+        if rng.random() < 0.6:
+            v = rotated(nps, v)
+    elif kind == "thin-box":
+        v, f = box((1.0, 10.0 ** nps.uniform(-3, -1), 10.0 ** nps.uniform(-3, -1)))
+        v = rotated(nps, v)
+    elif kind == "stella":
+        v, f = STELLA[0].copy(), STELLA[1].copy()
+    elif kind == "far-needles":
+        # two needles crossing near their tips, tips off each other's plane: centroids 4L/3 apart
+        L, w_, d_ = rng.choice([1.0, 3.0]), rng.choice([0.1, 0.05]), rng.choice([0.05, 0.2])
+        v, f = needle_pair(L, w_, d_)
+        v[2] += (0.0, 0.04 * w_, 0.0)
+        v[5] += (0.0, 0.0, -0.03 * w_)
+    elif kind == "octa-on-box":
+        v, f = octa_on_box(rng.choice([0.0, 0.0, -1e-3, 1e-3, -2e-6]))
     elif kind == "tetra":
         v, f = tetra(nps)
     elif kind == "prism":
@@ -245,17 +325,31 @@ def gen_selfint(rng, nps):
         v = nps.normal(size=(6, 3))
         f = np.array([[0, 1, 2], [3, 4, 5]])
     # scale, translation, face order
-    sc = rng.choice([1.0, 1.0, 1.0, 1e-7, 1e-5, 1e-3, 1e2, 1e4]) if kind != "half-diagonal" else rng.choice([1.0, 2.0**-10, 2.0**6])
+    lattice = kind in ("half-diagonal", "stella")
+    sc = rng.choice([1.0, 1.0, 1.0, 1e-9, 1e-7, 1e-5, 1e-3, 1e2, 1e4, 1e6, 1e9]) if not lattice else rng.choice([1.0, 2.0**-10, 2.0**6, 1e-9, 1e9])
     v = v * sc
     if rng.random() < 0.3:
-        v = v + (np.array([rng.randrange(-4, 5) for _ in range(3)]) * (sc if kind == "half-diagonal" else sc * nps.uniform(0.5, 3)))
+        v = v + (np.array([rng.randrange(-4, 5) for _ in range(3)]) * (sc if lattice else sc * nps.uniform(0.5, 3)))
+    elif rng.random() < 0.15:
+        v = v + np.array([1e7, -2e7, 3e7]) * sc
     f = f[nps.permutation(len(f))]
     r = None
-    rf = rng.choice([1.5, 1.5, 1.5, 1.0, 2.0, 10.0])
+    rf = rng.choice([2.0, 2.0, 2.0, 1.0, 1.5, 10.0])
     if rng.random() < 0.15:
         r = float(sc * rng.choice([0.5, 1.0, 10.0]))
     eps = rng.choice([1e-6, 1e-6, 1e-6, 1e-3])
     return kind, sc, v, f, r, rf, eps
+
+
+def _normalised(v, r):
+    """lengths in units of the mesh size, measured from the lower corner of the bounding box (as the code does it, float64)"""
+    v = np.asarray(v, dtype=float)
+    size = np.max(np.ptp(v, axis=0))
+    if size > 0:
+        v = (v - np.min(v, axis=0)) / size
+        if r is not None:
+            r = r / size
+    return v, r
 
 
 def real_selfint(mod, v, f, r, rf, eps):
@@ -264,7 +358,7 @@ def real_selfint(mod, v, f, r, rf, eps):
         res = mod.get_intersecting_triangles(np.array(v, float), np.array(f), r=r, r_factor=rf, eps=eps)
         radius = None
         if r is None:
-            v32 = np.array(v, float).astype(np.float32)
+            v32 = _normalised(v, None)[0].astype(np.float32)
             fac = v32[f]
             cen = np.mean(fac, axis=1)
             radius = rf * np.sqrt(((fac - cen[:, None, :]) ** 2).sum(-1)).max()
@@ -273,7 +367,8 @@ def real_selfint(mod, v, f, r, rf, eps):
 
 def selfint_margin(v, f, r, rf, eps):
     """float64 re-evaluation: smallest relative margin of any pair's centre distance from r and of any predicate quantity"""
-    v32 = np.array(v, float).astype(np.float32).astype(float)
+    vn, r = _normalised(v, r)
+    v32 = vn.astype(np.float32).astype(float)
     fac = v32[f]
     cen = fac.mean(axis=1)
     rr = r if r is not None else rf * np.sqrt(((fac - cen[:, None, :]) ** 2).sum(-1)).max()
@@ -382,7 +477,7 @@ def run_selfint_stream(ctx, n_cases):
                 st["radius_rows"] += 1
                 rad_ok = rb.strip() == bits(float(radius))
             if ok and rad_ok:
-                if real and len(samples) < 3 and kind in ("interpenetrating", "spike"):
+                if real and len(samples) < 3 and kind in ("interpenetrating", "spike", "stella", "far-needles"):
                     samples.append({"kind": "selfint", "mesh": kind, "faces": len(f), "reported": real})
                 continue
             margin = selfint_margin(v, f, r, rf, eps) if rad_ok else None
